@@ -573,6 +573,13 @@ impl<R: Read + Seek> ReadDesc<&mut R> for DecoderSpecificDescriptor {
 
 impl<W: Write> WriteDesc<&mut W> for DecoderSpecificDescriptor {
     fn write_desc(&self, writer: &mut W) -> Result<u32> {
+        if self.freq_index == 15 {
+            // index 15 announces an explicit 24-bit sampling frequency, which this
+            // structure does not hold: writing the index alone would corrupt the stream
+            return Err(Error::InvalidData(
+                "explicit sampling frequency (index 15) cannot be encoded",
+            ));
+        }
         let size = self.desc_size();
         write_desc(writer, Self::desc_tag(), size)?;
 
